@@ -138,7 +138,13 @@ def run_case(case):
         C = run_worker('api', {'api': {'files': files, 'out': str(c_out), 'debug': str(c_dbg) if o['debug'] else None, 'w': eff_w,
                                        'use_stl': not o['no_stl_flag'], 'version': api_version, 'werror': o['werror'],
                                        'lzma_preset': o['lzma_preset'] if api_version == 3 else None, 'silent': o['silent']}}, data, tmp)
+        # ---- route D: the single-call API (assemble_and_run: temporary .fjm, so only success / output / termination compare)
+        Dr = run_worker('api', {'api': {'files': files, 'out': str(tmp / 'd.fjm'), 'debug': None, 'w': eff_w, 'one_call': True,
+                                        'use_stl': not o['no_stl_flag'], 'version': api_version, 'werror': o['werror'],
+                                        'lzma_preset': None, 'silent': o['silent']}}, data, tmp)
         ok_a, ok_b, ok_c = A['exit'] == 0, (B1['exit'] == 0 and B2 is not None and B2['exit'] == 0), C['exit'] == 0
+        if (Dr['exit'] == 0) != ok_c:
+            return Violation('c20:routes-disagree-on-success:assemble_and_run', {'api': [C['exit'], C.get('exc')], 'assemble_and_run': [Dr['exit'], Dr.get('exc'), Dr.get('msg', '')[:150]], 'opts': o}, cl)
         if len({ok_a, ok_b, ok_c}) > 1:
             return Violation('c20:routes-disagree-on-success', {'one_step': [A['exit'], A.get('exc'), A.get('msg', '')[:150]],
                                                                'two_step': [B1['exit'], B1.get('exc'), (B2 or {}).get('exit')],
@@ -166,7 +172,15 @@ def run_case(case):
                 return Violation('c20:fjd-bytes-differ', {'opts': o}, cl)
             cl.append('fjd compared')
         # ---- program output + termination line
-        outs = {'one-step': normalise(A['stdout']), 'two-step': normalise(B1['stdout'] + B2['stdout']), 'api': normalise(C['stdout'])}
+        outs = {'one-step': normalise(A['stdout']), 'two-step': normalise(B1['stdout'] + B2['stdout']), 'api': normalise(C['stdout']),
+                'assemble_and_run': normalise(Dr['stdout'])}
+        if not o['debug']:
+            # assemble_and_run always runs with the label table of its temporary debug file: the last-ops listing is
+            # annotated and the "use debugging flags" hint is absent.  Program output and termination line still compare.
+            def upto_termination(t):
+                return re.split(r'\n\n\*\*\*\* You may want|\n\nLast \d+ ops were', t)[0]
+            if upto_termination(outs.pop('assemble_and_run')) != upto_termination(outs['api']):
+                return Violation('c20:stdout-differs:assemble_and_run', {'api': outs['api'][-300:], 'assemble_and_run': normalise(Dr['stdout'])[-300:]}, cl)
         if len(set(outs.values())) > 1:
             return Violation('c20:stdout-differs', {k: v[-300:] for k, v in outs.items()}, cl)
         expected_out = {'hello': 'Hello, World!', 'cat': 'abc xyz', 'cat-2files': 'Q1', 'nostl-hello': 'Hi'}.get(name)
